@@ -159,8 +159,16 @@ func (c *hsConn) handshake(o hsOpts, suites []ipmi.CipherSuite, reply func(i int
 		switch {
 		case err == nil:
 			run.sess = sess
+			// the exposed key material is read the way a caller may: every value is HELD while the others (and K(3), and
+			// K(1) a second time, and the session's String()) are obtained, and only then looked at
+			sik, k1, k2 := sess.SIK, sess.K(1), sess.K(2)
+			k3, k1again := sess.K(3), sess.K(1)
+			_ = sess.String()
 			run.res = fmt.Sprintf("ok local=%d remote=%d algs=%d/%d/%d sik=%s k1=%s k2=%s", sess.LocalID, sess.RemoteID,
-				sess.AuthenticationAlgorithm, sess.IntegrityAlgorithm, sess.ConfidentialityAlgorithm, hx(sess.SIK), hx(sess.K(1)), hx(sess.K(2)))
+				sess.AuthenticationAlgorithm, sess.IntegrityAlgorithm, sess.ConfidentialityAlgorithm, hx(sik), hx(k1), hx(k2))
+			if !bytes.Equal(k1, k1again) || bytes.Equal(k3, k1) || bytes.Equal(k3, k2) || sess.ID() != sess.LocalID {
+				run.res += " exposed-values-unstable"
+			}
 		case errors.Is(err, bmc.ErrIncorrectPassword):
 			run.res = "badpw"
 		default:
@@ -445,6 +453,19 @@ func genHs(g *genCtx) {
 		o2 := o
 		o2.bmcPass = []byte("other")
 		emit('P', true, o2, live(o2, echo))
+		// wrong passwords that are CLOSE to the caller's: a long password of which the BMC holds the first 16 bytes (the
+		// v1.5 storage size) or all but the last byte, one more byte, another case
+		for _, n := range []int{17, 20} {
+			long := o
+			long.pass = rb(n)
+			for _, bp := range [][]byte{long.pass[:16], long.pass[:n-1], append(append([]byte(nil), long.pass...), 'x'), bytes.ToUpper(long.pass)} {
+				l2 := long
+				l2.bmcPass = bp
+				if !bytes.Equal(l2.bmcPass, l2.pass) {
+					emit('P', true, l2, live(l2, echo))
+				}
+			}
+		}
 		o3 := o
 		o3.kg, o3.bmcKG = rb(20), rb(20)
 		emit('P', true, o3, live(o3, echo))
@@ -498,6 +519,26 @@ func genHs(g *genCtx) {
 			for _, k := range []int{1, 2, 3, 4, 8, 12, 13, 20, 21, 32, 33, 64, 200, 400} {
 				k := k
 				mutate(which, func(p []byte) []byte { return append(p, rb(k)...) }, true)
+			}
+		}
+		// a LATE Open Session Response — as a BMC sends for a retransmitted request, with a FRESH session ID of its own —
+		// arriving while RAKP 1 or RAKP 3 is outstanding; likewise a late RAKP 2 with another BMC random
+		for at := 1; at <= 2; at++ {
+			for _, which := range []int{0, 1} {
+				if which >= at {
+					continue
+				}
+				d := unhx(strings.TrimPrefix(honest[which], "R:"))
+				if which == 0 && len(d) >= 16+12 {
+					d[16+8] ^= 0x01 // managed system session ID
+					d[16+11] ^= 0x80
+				} else if which == 1 && len(d) >= 16+24 {
+					d[16+8+g.rng.Intn(16)] ^= 0x10 // managed system random number
+				}
+				items := append([]string(nil), honest[:at]...)
+				items = append(items, "R:"+hx(d))
+				items = append(items, honest[at:]...)
+				emit('P', true, o, append(items, "L", "L"))
 			}
 		}
 		// retries inside the exchanges: lost, garbage, duplicate of the previous reply
